@@ -10,6 +10,7 @@ from .. import ref
 from ..core import fhex
 
 name = 'panel'
+RAISE_ORACLE = 'I09.raise'
 
 
 def make_config(rng, profile, tier):
